@@ -178,6 +178,17 @@ def shutOp : List String → String
       | _, _, _ => "BADLINE"
     | ["setup-failed"] => propfail "setup-failed"
     | _ => if res == "PANIC" then propfail "panic" else "BADLINE"
+  | ["slowconnect", _client, res] =>
+    match res.splitOn " " with
+    | [t1, r0] =>
+      match t1.toNat? with
+      | some t1 =>
+        if t1 > 700 then propfail s!"shutdown-waited-for-a-connection-being-set-up:{t1}ms"
+        else if r0 == "HANG" then propfail "send-in-flight-at-shutdown-never-returned"
+        else "ok"
+      | none => "BADLINE"
+    | ["setup-failed"] => propfail "setup-failed"
+    | _ => if res == "PANIC" then propfail "panic" else "BADLINE"
   | ["atreturn", _client, _k, res] =>
     match res.splitOn " " with
     | [_, idle, quits, eofs] =>
